@@ -82,3 +82,51 @@ class tokens_to_encodings:
 def type_simple():
     from kernpy.core.tokens import SimpleToken
     return SimpleToken
+
+
+# ------------------------------------------------------------------------------------------------ the stack loop of Node.dfs_iterative
+A_DFS = ('A-dfs: a loop that pops the top of a stack that starts with the root, visits it and pushes its children in reverse order '
+         'visits the nodes of a tree in preorder (children left to right)')
+
+
+class VisitRecorder:
+    """a traversal object that records the nodes it is shown, in order"""
+    def __init__(self, seen):
+        self.seen = seen
+
+    def visit(self, node):
+        self.seen.append(node)
+
+
+@contract('kernpy.core.document.Node.dfs_iterative', props=['C17'], name='dfs_iterative_step')
+class dfs_iterative_step:
+    """One iteration of `while stack` from an arbitrary stack: the node on top is taken off and shown to the traversal object exactly
+    once, before any other node; its children are pushed in reverse order (so the leftmost child is on top next); the rest of the
+    stack is untouched."""
+    step = 'while stack'
+    assumes = (A_DFS,)
+
+    def inputs(g):
+        from kernpy.core.document import Node
+        kids = g.mlist('top.children', lambda e: e.new(Node, {'id': e.int('id')}, None))
+        top = g.new(Node, {'id': g.int('top.id', 1), 'token': None, 'parent': None, 'children': kids, 'stage': 0, 'header_node': None,
+                           'last_signature_nodes': None, 'last_spine_operator_node': None}, None)
+        if not hasattr(top, 'fields'):
+            top.id, top.token, top.parent, top.children, top.stage, top.header_node = 1, None, None, kids, 0, None
+        below = g.mlist('stack.below', lambda e: e.new(Node, {'id': e.int('id')}, None))
+        stack = below.copy()
+        stack.append(top)
+        seen = g.mlist('seen', lambda e: e.new(Node, {'id': e.int('id')}, None))
+        return {'self': None, 'tree_traversal': VisitRecorder(seen), 'stack': stack, '_top': top, '_below': below, '_seen_before': seen.copy()}
+
+    def modifies_objs(stack, tree_traversal):
+        return [stack, tree_traversal.seen]
+
+    def post_top_visited_once(tree_traversal, top, seen_before):
+        return tree_traversal.seen == seen_before + [top]
+
+    def post_children_pushed_reversed(stack, top, below):
+        return stack == below + list(reversed(top.children))
+
+    def post_loop_goes_on(flow):
+        return flow == 'next'
